@@ -270,10 +270,18 @@ fn value_level(ctx: &Ctx) {
     ("get_solar_day", |d| d.get_solar_day().to_string()),
     ("get_sixty_cycle_day", |d| d.get_sixty_cycle_day().to_string()),
     ("get_sixty_cycle", |d| d.get_sixty_cycle().to_string()),
+    ("get_week", |d| d.get_week().to_string()),
+    ("get_duty", |d| d.get_duty().to_string()),
     ("clone.get_solar_day", |d| d.clone().get_solar_day().to_string()),
     ("next(0).get_sixty_cycle_day", |d| d.next(0).get_sixty_cycle_day().to_string()),
+    ("next(1).get_solar_day", |d| d.next(1).get_solar_day().to_string()),
+    ("next(3).get_solar_day", |d| d.next(3).get_solar_day().to_string()),
+    ("next(-2).get_sixty_cycle_day", |d| d.next(-2).get_sixty_cycle_day().to_string()),
+    ("next(30).get_solar_day", |d| d.next(30).get_solar_day().to_string()),
+    ("next(-30).get_week", |d| d.next(-30).get_week().to_string()),
     ("get_hours[12].get_solar_time", |d| d.get_hours()[12].get_solar_time().to_string()),
     ("next(1).next(-1).get_solar_day", |d| d.next(1).next(-1).get_solar_day().to_string()),
+    ("get_lunar_month.get_days[last].get_solar_day", |d| d.get_lunar_month().get_days().last().unwrap().get_solar_day().to_string()),
   ];
   let hgetters: Vec<(&str, fn(&LunarHour) -> String)> = vec![
     ("get_solar_time", |h| h.get_solar_time().to_string()),
@@ -281,7 +289,12 @@ fn value_level(ctx: &Ctx) {
     ("get_eight_char", |h| h.get_eight_char().get_name()),
     ("clone.get_solar_time", |h| h.clone().get_solar_time().to_string()),
     ("next(0).get_sixty_cycle_hour", |h| h.next(0).get_sixty_cycle_hour().to_string()),
+    ("next(1).get_solar_time", |h| h.next(1).get_solar_time().to_string()),
+    ("next(-1).get_sixty_cycle_hour", |h| h.next(-1).get_sixty_cycle_hour().to_string()),
+    ("next(13).get_solar_time", |h| h.next(13).get_solar_time().to_string()),
     ("get_lunar_day.get_solar_day", |h| h.get_lunar_day().get_solar_day().to_string()),
+    ("get_lunar_day.next(2).get_solar_day", |h| h.get_lunar_day().next(2).get_solar_day().to_string()),
+    ("get_twelve_star", |h| h.get_twelve_star().to_string()),
   ];
   let days: Vec<(isize, isize, usize)> = vec![(2020, -4, 1), (2020, 4, 30), (2021, 12, 29), (1582, 9, 18), (1582, 9, 19), (30, 1, 1), (9999, 11, 30), (2033, -11, 1), (2023, 2, 30), (1, 1, 1)];
   let mut n: u64 = 0;
@@ -351,7 +364,7 @@ fn value_level(ctx: &Ctx) {
   l.states = st;
   l.transitions = n;
   ctx.add(&l);
-  ctx.subspace("value-level lazy fields: every sequence of <= 3 getters on 10 lunar days x (day + 4 hours)", true, n);
+  ctx.subspace("value-level lazy fields: every sequence of <= 3 of the 15 day / 11 hour observers (incl. next(n) after a getter filled the lazy fields) on 10 lunar days x (day + 4 hours), each answer compared with the answer of a fresh value", true, n);
 }
 
 fn alpha_by_tag(tag: &str) -> Vec<Req> {
